@@ -1,6 +1,7 @@
 """C18 (deterministic hashing, collision isolation), C02 (lookups return the current value of the
 same key) and C04 (nothing is lost below capacity): mostly compositions of store / cache rules."""
 from cachelib import *
+from cachelib import ctor_fields
 import props_store
 import props_life
 import props_cache
@@ -110,7 +111,9 @@ def check_transparent(rep, fl, rule="R18.1"):
         a = [norm(x) for x in hi.call_args(hs[0][1], expand_vars=False)]
         hv = a[1]
         init = var_def_exprs(hi, hv)
-        ok = a[0] == V("key") and len(init) == 1 and init[0][0] == "agg" and init[0][2].endswith("TransparentHasher::TransparentHasher") and \
+        # a fresh hasher: the literal, or a constructor / Default impl that builds it
+        cf = ctor_fields(facts, init[0]) if len(init) == 1 else None
+        ok = a[0] == V("key") and cf is not None and cf[0].endswith("TransparentHasher::TransparentHasher") and norm(cf[1].get("data", ())) == ("const", 0, "u64") and \
             norm(hi.call_args(fs[0][1], expand_vars=False)[0]) == hv and is_call(norm(return_expr(hi)), "Hasher::finish")
     rep.check(ok, rule, fl, hi, "hash_index", "hash_index(key) = { fresh TransparentHasher; key.hash(&mut h); h.finish() }", "TransparentKeyBuilder::hash_index is no longer hash-through-identity")
     hc = facts.body("<TransparentKeyBuilder<K> as KeyBuilder>::hash_conflict")
@@ -198,9 +201,9 @@ def check_C18(rep, fl):
     props_cache.check_C16_keys(rep, fl)
     # the pairings that carry or ignore the conflict hash (what happens to the policy's victims is not a collision matter)
     props_life.check_handle_item_pairing(rep, fl, rule="R18.4", only_sites=(
-        "try_insert only if added", "Delete => policy.remove + store.try_remove",
+        "try_insert args", "Delete => policy.remove + store.try_remove",
         "Delete: un-charge conditional on conflict-checked removal", "New: re-charge of an existing index without conflict check"))
-    props_life.check_remove_pair(rep, fl)
+    props_store.keep_sites(rep, fl, props_life.check_remove_pair, ("store.try_remove then Delete*",))  # the marker carries the same (index, conflict)
 
 
 # ----------------------------------------------------------------------------------------
@@ -231,6 +234,10 @@ def check_value_writers(rep, fl, rule="R02.4"):
             ok = norm(return_expr(b)) == norm(F(V("self"), "val"))
         else:
             ok = len(ws) == 1 and norm(b.place_expr(ws[0][2]["pl"], True)) == norm(F(V("self"), "val")) and norm(b.rvalue_expr(ws[0][2]["rv"], True)) == V("val")
+            if not ok and not ws and m == "write_once":
+                # delegation: `self.write(val); drop(self)` - `write` is the instance checked just before
+                wc = calls_to(b, "utils::ValueRefMut::write")
+                ok = len(wc) == 1 and must_pass_through(b, [wc[0][0]]) and norm(b.call_args(wc[0][1])[1]) == V("val") and norm(b.call_args(wc[0][1])[0]) == V("self")
         rep.check(ok, rule, fl, b, m, "ValueRefMut::%s writes the borrowed value of this entry" % m, "ValueRefMut::%s changed" % m)
     # the swapped-out value flows only to on_exit
     tu = fl.cache_fn("try_update")
@@ -273,7 +280,7 @@ def check_C02(rep, fl):
     check_immediate_effect(rep, fl)
     props_store.check_store_writes(rep, fl)
     check_conflict_plumbing(rep, fl, rule="R02.2")
-    props_life.check_handle_item_pairing(rep, fl, collisions=False, only_sites=("try_insert only if added", "Delete => policy.remove + store.try_remove"))
+    props_life.check_handle_item_pairing(rep, fl, collisions=False, only_sites=("try_insert only if added", "try_insert args", "Delete => policy.remove + store.try_remove"))
     props_life.check_fifo(rep, fl)
     # "never a value written before the latest clear()": the clear empties every shard and discards everything buffered
     props_life.check_clear_parts(rep, fl)
